@@ -230,6 +230,74 @@ fn job_bool<K: BoolKind>(n: u32, srcs: &[Vec<u32>], cfg: &Cfg, rep: &mut Report)
     }
 }
 
+/// Forced concurrent bubble sort on 5..8 variables: random source orders and requests (reversals,
+/// rotations and random permutations - several levels travel at once and follow each other).
+fn job_conc<K: BoolKind>(seed: u64, cases: u32, rep: &mut Report) {
+    let mut s = seed;
+    for c in 0..cases {
+        s = mix(s);
+        let n = 5 + (s % 4) as u32;
+        let mut src: Vec<u32> = (0..n).collect();
+        let mut req: Vec<u32> = (0..n).collect();
+        let mut r = s;
+        for i in (1..n as usize).rev() {
+            r = mix(r);
+            src.swap(i, (r % (i as u64 + 1)) as usize);
+        }
+        match (s >> 8) % 4 {
+            0 => {
+                req = src.clone();
+                req.reverse();
+            }
+            1 => {
+                req = src.clone();
+                req.rotate_left(1 + (s >> 12) as usize % (n as usize - 1));
+            }
+            _ => {
+                for i in (1..n as usize).rev() {
+                    r = mix(r);
+                    req.swap(i, (r % (i as u64 + 1)) as usize);
+                }
+                if (s >> 8) % 4 == 3 {
+                    req.truncate(2 + (s >> 16) as usize % (n as usize - 1));
+                }
+            }
+        }
+        let threads = [2u32, 3, 4, 8][(s >> 20) as usize % 4];
+        let tables = sample_tables(n, 12, s);
+        let case = json!({"kind": K::NAME, "n": n, "src": src, "request": req, "threads": threads, "mode": "set_var_order(concurrent bubble sort forced)", "functions": tables.len(), "tables_seed": s});
+        progress(&json!({"sig": format!("C08/{}/crash", K::NAME), "case": case}).to_string());
+        match suite_bool::<K>(n, &src, &req, &tables, threads, 2, rep) {
+            Ok(()) => {
+                if inversions(&src, &K_order_after(&src, &req)) >= 3 {
+                    rep.nontrivial += 1;
+                }
+                rep.class(&format!("{}.conc.n{n}", K::NAME));
+            }
+            Err(m) => rep.viol(format!("C08/{}/conc/{}", K::NAME, category(&m)), m, case.clone()),
+        }
+        if rep.samples.is_empty() && c == 0 {
+            rep.sample(case);
+        }
+    }
+}
+
+/// the unique minimal-inversion order for a total request is the request itself; for partial
+/// requests use the request's own pairs as a lower bound
+#[allow(non_snake_case)]
+fn K_order_after(src: &[u32], req: &[u32]) -> Vec<u32> {
+    if req.len() == src.len() {
+        return req.to_vec();
+    }
+    // stable placement: keep unnamed variables, permute named ones into the requested order
+    let named: Vec<usize> = src.iter().enumerate().filter(|(_, v)| req.contains(v)).map(|(i, _)| i).collect();
+    let mut out = src.to_vec();
+    for (k, &i) in named.iter().enumerate() {
+        out[i] = req[k];
+    }
+    out
+}
+
 fn job_val<K: VKind>(n: u32, srcs: &[Vec<u32>], k: usize, seed: u64, rep: &mut Report) {
     let reqs = requests(n);
     let pal = K::palette();
@@ -290,7 +358,13 @@ pub fn run(cfg: &Cfg) -> i32 {
                     "set_var_order" => 1,
                     _ => 2,
                 };
-                let tables: Vec<TT> = if n == 3 { (0..256u64).map(|t| TT::from_u64(3, t)).collect() } else { sample_tables(n, 96, cfg.seed ^ n as u64) };
+                let tables: Vec<TT> = if n == 3 {
+                    (0..256u64).map(|t| TT::from_u64(3, t)).collect()
+                } else if let Some(ts) = case["tables_seed"].as_u64() {
+                    sample_tables(n, 12, ts)
+                } else {
+                    sample_tables(n, case["functions"].as_u64().unwrap_or(96) as usize, cfg.seed ^ n as u64)
+                };
                 let mut rep = Report::default();
                 let out = isolated(300, |w| {
                     let r = match k {
@@ -346,6 +420,16 @@ pub fn run(cfg: &Cfg) -> i32 {
                 jobs.push(Box::new(move |w: &mut dyn Write| {
                     let mut rep = Report::default();
                     job_bool::<$K>(4, &[src.clone()], cfg, &mut rep);
+                    rep.emit(w);
+                }));
+            }
+            for sh in 0..cfg.t(2, 8) {
+                let seed = mix(cfg.seed ^ (0xc08_c00 + $salt * 100 + sh as u64));
+                let cases = cfg.t(250, 2500);
+                names.push(format!("conc/{}/{}", <$K>::NAME, sh));
+                jobs.push(Box::new(move |w: &mut dyn Write| {
+                    let mut rep = Report::default();
+                    job_conc::<$K>(seed, cases, &mut rep);
                     rep.emit(w);
                 }));
             }
@@ -410,7 +494,7 @@ pub fn run(cfg: &Cfg) -> i32 {
         &total,
         Meta {
             level: "exploration",
-            rule: "n=3: every source permutation x every request (every ordered subset of the variables, incl. empty/singleton no-ops) with all 256 functions (MTBDD: 60-80 value tables, TDD: the 27 one-variable functions lifted to each variable + sampled tables) alive plus dead nodes; n=4: source permutations (all in thorough, a seeded third in quick) x all 65 requests with sampled functions; set_var_order_seq / set_var_order / set_var_order with the concurrent bubble sort forced through the oxidd_verif hook, threads 1 and 4. After each reordering: requested pairs in order, number of inversions old->new equals the brute-force minimum over all linear extensions of the request, every handle's table unchanged (independent interpreter), exact node counts vs reference canonical form, structure + reference-count audit, rebuilding every function yields the preserved handle (canonical, fresh-diagram behaviour), gc, reordering back to the source order and all checks again. Plus proptest histories over 5..8 variables with chains of reorderings mixed with operations and gc. Non-trivial = partial request leaving variables unnamed, or total request needing >= 2 swaps; histories with >= 2 effective reorderings.",
+            rule: "n=3: every source permutation x every request (every ordered subset of the variables, incl. empty/singleton no-ops) with all 256 functions (MTBDD: 60-80 value tables, TDD: the 27 one-variable functions lifted to each variable + sampled tables) alive plus dead nodes; n=4: source permutations (all in thorough, a seeded third in quick) x all 65 requests with sampled functions; set_var_order_seq / set_var_order / set_var_order with the concurrent bubble sort forced through the oxidd_verif hook, threads 1 and 4. After each reordering: requested pairs in order, number of inversions old->new equals the brute-force minimum over all linear extensions of the request, every handle's table unchanged (independent interpreter), exact node counts vs reference canonical form, structure + reference-count audit, rebuilding every function yields the preserved handle (canonical, fresh-diagram behaviour), gc, reordering back to the source order and all checks again. Plus seeded random cases on 5..8 variables (random source order; request = reversal / rotation / random permutation / random partial request; 12 sampled functions alive) through the forced concurrent bubble sort with 2/3/4/8 workers, where several levels travel at the same time and follow each other (non-trivial: >= 3 swaps). Plus proptest histories over 5..8 variables with chains of reorderings mixed with operations and gc. Non-trivial = partial request leaving variables unnamed, or total request needing >= 2 swaps; histories with >= 2 effective reorderings.",
             assumptions: vec!["concurrent bubble sort on small diagrams is reached through the cfg(oxidd_verif) hook VERIF_FORCE_CONCURRENT; honest >= 65536-node runs are not part of the quick tier".into(), "pointer backend through C20".into()],
             extra: json!({}),
         },
